@@ -143,6 +143,13 @@ def gen_plan(prop, r, tier, run):
         # freshly drawn declared types: either the table is dropped and
         # re-created, or the session moves to another database
         ops.extend(gen_recreate(r, cols))
+    if cfg.get('db_file'):
+        for op in ops:
+            if op['op'] == 'verify' and r.chance(0.4):
+                # also through the command-line entry point for database
+                # tables (its own connection to the database file)
+                op['cli_entry'] = True
+                op['epsilon'] = r.pick([None, None, '0.5', '0.01'])
     for i, op in enumerate(ops):
         op['i'] = i
     return {'config': cfg, 'ops': ops}
@@ -246,6 +253,8 @@ def execute(plan):
             insert_rows(ctx, cfg['rows'])
             ctx.cs = None
             ctx.cs_path = W.path('data', 'table.tdda')
+            ctx.pending = False
+            ctx.dbname = dbname
             ctx.clean = False       # table unchanged since discovery?
             ctx.rogue = None
             import sqlite3
@@ -306,7 +315,9 @@ def insert_rows(ctx, rows, commit=True, other=False):
         cur.execute('INSERT INTO %s VALUES (%s)' % (ctx.table, ph), row)
     if commit:
         ctx.conn.commit()
+        ctx.pending = False
     elif rows:
+        ctx.pending = True
         # the writer's transaction is still open on the connection that is
         # handed to tdda: its rows are part of the table as that connection
         # sees it
@@ -465,6 +476,9 @@ def op_verify(ctx, op):
                     for k, s in fv.items()} for f, fv in v.fields.items()}
     ctx.events.append({'i': op['i'], 'op': 'verify', 'outcome': outcome
                        if outcome == 'ok' else exc_tag(exc), 'map': vmap})
+    if op.get('cli_entry') and ctx.wconn is not None and not ctx.pending \
+            and outcome == 'ok':
+        cli_entry_check(ctx, op, v)
     ctx.shape.append('V%s%s' % (outcome[0], 'c' if ctx.clean else (
         'R' + ctx.rogue['kind'] if ctx.rogue else 'd')))
     tcls = text_class(ctx)
@@ -514,6 +528,55 @@ def op_verify(ctx, op):
                   'verdicts %r\nrows %r'
                   % (rg['row'], rg['field'], rg['kind'], rg['value'], got,
                      vmap.get(rg['field']), table_dump(ctx)))
+
+
+def cli_entry_check(ctx, op, v_api):
+    """`tdda verify sqlite:TABLE FILE -db DB [--epsilon E]` in this process
+    reports the same counts as the library call with the same options."""
+    from tdda.constraints import verify_db_table
+    from tdda.constraints.db.verify import DatabaseVerifier
+    eps = op.get('epsilon')
+    argv = ['tdda-verify', 'sqlite:%s' % ctx.table, ctx.cs_path,
+            '-db', ctx.dbname]
+    if eps:
+        argv += ['--epsilon', eps]
+    out = io.StringIO()
+    saved = sys.stdout
+    sys.stdout = out
+    try:
+        DatabaseVerifier(argv).verify()
+        res = 'ok'
+    except WatchdogTimeout:
+        raise
+    except BaseException as e:
+        if isinstance(e, KeyboardInterrupt):
+            raise
+        res = exc_tag(e)
+    finally:
+        sys.stdout = saved
+    ctx.stats['checks']['cli_entry_verifications'] += 1
+    text = out.getvalue()
+    m1 = re.search(r'Constraints passing: (\d+)', text)
+    m2 = re.search(r'Constraints failing: (\d+)', text)
+    got = (int(m1.group(1)), int(m2.group(1))) if m1 and m2 else res
+    if eps:
+        try:
+            v2 = verify_db_table('sqlite', ctx.db, ctx.table, ctx.cs_path,
+                                 testing=True, epsilon=float(eps))
+            want = (v2.passes, v2.failures)
+        except Exception:
+            ctx.stats['abstain']['library_verify_with_epsilon_raises'] += 1
+            return
+    else:
+        want = (v_api.passes, v_api.failures)
+    ctx.events.append({'i': op['i'], 'op': 'verify-cli-entry',
+                       'epsilon': eps, 'got': got})
+    if got != want:
+        violation(ctx, op, 'cli-entry-same-counts',
+                  'epsilon' if eps else 'no-epsilon',
+                  'tdda verify %s printed %r, verify_db_table with the same '
+                  'options gives %r' % (' '.join(argv[1:2] + argv[3:]),
+                                        got, want))
 
 
 def coltype(ctx, name):
